@@ -231,7 +231,14 @@ where
         };
     }
     // statistical
-    let nsamp: u64 = if thorough { 4_000_000 } else { 200_000 };
+    // short vectors come from the exhaustive sweep (hundreds of thousands of them at the
+    // thorough tier): their few cells need far fewer samples than a long random vector
+    let nsamp: u64 = match (thorough, n <= 6) {
+        (true, true) => 40_000,
+        (true, false) => 4_000_000,
+        (false, true) => 20_000,
+        (false, false) => 200_000,
+    };
     let run = |seed: u64, nsamp: u64| -> Result<Vec<u64>, (String, String)> {
         let mut counts = vec![0u64; n];
         let mut rng = SimRng::new(seed);
